@@ -34,7 +34,7 @@ Section World.
 
   (** Hdisj, other half: the address a MsgEthereumTx signature recovers to IS Ethereum-key-derived *)
   Definition leaf_wf (l : leaf) : Prop :=
-    match l with EthTx a _ _ _ _ => w_is_eth w a = true | _ => True end.
+    match l with EthTx a _ _ _ _ | EthTxAs _ a _ _ _ _ => w_is_eth w a = true | _ => True end.
   Definition msg_wf (t : msg) : Prop := Forall leaf_wf (leaves leaf t).
   Definition tx_wf (x : tx) : Prop := Forall msg_wf (t_msgs x).
 
@@ -77,7 +77,7 @@ Section World.
   Proof. reflexivity. Qed.
   Lemma run_msg_exec g cs s :
     run_msg c w (Exec g cs) s =
-    seq_opt (run_msg c w) (fun s c0 => authz_ok leaf leaf_signer leaf_kind st granted s g c0) cs s.
+    seq_opt (run_msg c w) (fun s c0 => authz_ok leaf (leaf_signer (signer_recovered c)) leaf_kind st granted s g c0) cs s.
   Proof. reflexivity. Qed.
   Lemma run_msg_wasm snd ctr cs s :
     run_msg c w (Wasm snd ctr cs) s =
@@ -87,12 +87,12 @@ Section World.
   Proof. reflexivity. Qed.
   Lemma run_msg_gov p cs s :
     run_msg c w (Gov p cs) s =
-    if forallb (fun c0 => basic_msg c0 && Nat.eqb (signer_msg c0) (w_gov w)) cs then Some s else None.
+    if forallb (fun c0 => basic_msg c0 && Nat.eqb (signer_msg c c0) (w_gov w)) cs then Some s else None.
   Proof. reflexivity. Qed.
   Lemma run_msg_ica r a cs s :
     run_msg c w (Ica r a cs) s =
     if w_ica_acct w a then
-      match seq_opt (run_msg c w) (fun _ c0 => w_ica_allow w (kind_of leaf leaf_kind c0) && Nat.eqb (signer_msg c0) a) cs s with
+      match seq_opt (run_msg c w) (fun _ c0 => w_ica_allow w (kind_of leaf leaf_kind c0) && Nat.eqb (signer_msg c c0) a) cs s with
       | Some s' => Some s'
       | None => Some s
       end
@@ -102,19 +102,20 @@ Section World.
   (** ---------------------------------------------------------------- the tree lemma *)
   Hypothesis Hw : world_ok.
   Hypothesis Hwasm : wasm_signer c = true.
+  Hypothesis Hrecov : signer_recovered c = true.   (* GetSigners = the address recovered from the signature *)
 
   (** A message whose signer is not Ethereum-derived — at any depth, under any wrappers — never reaches the
       Ethereum handler and never creates a grant with an Ethereum-derived granter. *)
   Lemma run_non_eth :
     forall t, msg_wf t ->
-    forall s s', w_is_eth w (signer_msg t) = false -> grants_ok s -> run_msg c w t s = Some s' ->
+    forall s s', w_is_eth w (signer_msg c t) = false -> grants_ok s -> run_msg c w t s = Some s' ->
     grants_ok s' /\ frame s s'.
   Proof.
     intro t.
     induction t as [l|g cs IH|snd ct cs IH|p cs IH|r a cs IH] using (tree_ind' leaf); intros Hwf s s' Hsig Hg Hrun.
     - rewrite run_msg_leaf in Hrun. unfold msg_wf in Hwf. simpl in Hwf. inversion Hwf as [|? ? Hl _]. subst.
-      destruct l as [a n gas price value|from|a b k]; simpl in *.
-      + congruence.
+      unfold signer_msg in Hsig. simpl in Hsig. rewrite Hrecov in Hsig.
+      destruct l as [a n gas price value|from|a b k|cl a n gas price value]; simpl in *; [congruence| | |congruence].
       + destruct (bal_of s from <? 1); [discriminate|]. inversion Hrun. subst. split; [exact Hg|].
         repeat split; auto. rewrite !bal_of_add_bal.
         destruct (Nat.eqb a (w_sink w)) eqn:E1.
@@ -126,7 +127,7 @@ Section World.
     - rewrite run_msg_exec in Hrun. rewrite Forall_forall in IH.
       refine (seq_opt_inv_weak _ _ (fun s1 => grants_ok s1 /\ frame s s1) _ _ s s' (conj Hg (frame_refl s)) Hrun).
       intros c0 Hin s1 s2 [Hg1 Hf1] Hok Hr.
-      assert (Hs0 : w_is_eth w (signer_msg c0) = false).
+      assert (Hs0 : w_is_eth w (signer_msg c c0) = false).
       { unfold authz_ok in Hok. apply orb_true_iff in Hok as [E|E].
         - apply Nat.eqb_eq in E. unfold signer_msg. rewrite E. exact Hsig.
         - apply granted_In in E as (k' & Hk). eapply Hg1; eauto. }
@@ -138,7 +139,7 @@ Section World.
       rewrite Forall_forall in IH.
       refine (seq_opt_inv_weak _ _ (fun s1 => grants_ok s1 /\ frame s s1) _ _ s s' (conj Hg (frame_refl s)) Hrun).
       intros c0 Hin s1 s2 [Hg1 Hf1] Hok Hr.
-      assert (Hs0 : w_is_eth w (signer_msg c0) = false).
+      assert (Hs0 : w_is_eth w (signer_msg c c0) = false).
       { apply andb_true_iff in Hok as [_ Hadm]. unfold wasm_admits in Hadm. rewrite Hwasm in Hadm. simpl in Hadm.
         apply andb_true_iff in Hadm as [E _]. apply Nat.eqb_eq in E. unfold signer_msg. rewrite E.
         eapply contracts_non_eth; eauto. }
@@ -154,7 +155,7 @@ Section World.
       rewrite Forall_forall in IH.
       refine (seq_opt_inv_weak _ _ (fun s1 => grants_ok s1 /\ frame s s1) _ _ s s' (conj Hg (frame_refl s)) E).
       intros c0 Hin s1 s3 [Hg1 Hf1] Hok Hr.
-      assert (Hs0 : w_is_eth w (signer_msg c0) = false).
+      assert (Hs0 : w_is_eth w (signer_msg c c0) = false).
       { apply andb_true_iff in Hok as [_ E1]. apply Nat.eqb_eq in E1. rewrite E1. eapply ica_non_eth; eauto. }
       destruct (IH c0 Hin (msg_wf_children cs c0 Hwf Hin) s1 s3 Hs0 Hg1 Hr) as [Hg2 Hf2].
       split; [exact Hg2|eapply frame_trans; eauto].
@@ -162,7 +163,7 @@ Section World.
 
   Lemma run_msgs_non_eth ms signer0 :
     Forall msg_wf ms -> w_is_eth w signer0 = false ->
-    forallb (fun m => Nat.eqb (signer_msg m) signer0) ms = true ->
+    forallb (fun m => Nat.eqb (signer_msg c m) signer0) ms = true ->
     forall s s', grants_ok s -> run_msgs c w ms s = Some s' -> grants_ok s' /\ frame s s'.
   Proof.
     intros Hwf Hs0 Hall s s' Hg Hrun. unfold run_msgs in Hrun.
@@ -182,7 +183,7 @@ Section World.
   Lemma nonevm_ante_frame s x s1 :
     nonevm_ante c w s x = Some s1 ->
     w_is_eth w (t_signer x) = false /\
-    forallb (fun m => Nat.eqb (signer_msg m) (t_signer x)) (t_msgs x) = true /\
+    forallb (fun m => Nat.eqb (signer_msg c m) (t_signer x)) (t_msgs x) = true /\
     grants s1 = grants s /\ ran s1 = ran s /\
     forall a, w_is_eth w a = true -> seq_of s1 a = seq_of s a /\ bal_of s1 a = bal_of s a.
   Proof.
@@ -223,7 +224,7 @@ Lemma direct_eth_parts ms ls :
   direct_eth ms = Some ls -> Forall (fun m => exists l, m = Leaf l /\ is_eth_leaf l = true) ms.
 Proof.
   revert ls. induction ms as [|m ms IH]; intros ls H; [constructor|].
-  simpl in H. destruct m as [[a n g p v|?|? ? ?]| | | |]; try discriminate.
+  simpl in H. destruct m as [[a n g p v|?|? ? ?|? ? ? ? ? ?]| | | |]; try discriminate.
   destruct (direct_eth ms) as [r|] eqn:E; [|discriminate].
   constructor; [eexists; split; [reflexivity|reflexivity]|]. eapply IH; eauto.
 Qed.
@@ -236,7 +237,7 @@ Lemma evm_admit_admits c ms s s1 :
 Proof.
   intros Hgas Hseq. revert s. induction ms as [|m ms IH]; intros s H; simpl in H.
   - inversion H. subst. exists []. split; [reflexivity|constructor].
-  - destruct m as [[a n g p v|?|? ? ?]| | | |]; simpl in H; try discriminate.
+  - destruct m as [[a n g p v|?|? ? ?|? ? ? ? ? ?]| | | |]; simpl in H; try discriminate.
     unfold evm_admit_one in H. rewrite Hgas, Hseq in H.
     destruct (bal_of s a <? g * p) eqn:Hb; [discriminate|].
     rewrite seq_of_add_fee, seq_of_add_bal in H.
@@ -257,7 +258,7 @@ Lemma run_direct_eth c w ms ls :
 Proof.
   revert ls. induction ms as [|m ms IH]; intros ls Hd s s' Hrun.
   - simpl in Hd. inversion Hd. subst. unfold run_msgs in Hrun. simpl in Hrun. inversion Hrun. subst. auto.
-  - simpl in Hd. destruct m as [[a n g p v|?|? ? ?]| | | |]; try discriminate.
+  - simpl in Hd. destruct m as [[a n g p v|?|? ? ?|? ? ? ? ? ?]| | | |]; try discriminate.
     destruct (direct_eth ms) as [r|] eqn:E; [|discriminate]. inversion Hd. subst. clear Hd.
     rewrite run_msgs_cons, run_msg_leaf in Hrun.
     destruct (leaf_run w s (EthTx a n g p v)) as [s1|] eqn:Hl; [|discriminate].
@@ -272,7 +273,7 @@ Qed.
 
 (** ---------------------------------------------------------------- what must hold of the code *)
 Definition cfg_ok (c : cfg) : Prop :=
-  sig_on c = true /\ sig_accepts_eth c = false /\ wasm_signer c = true /\
+  sig_on c = true /\ sig_accepts_eth c = false /\ wasm_signer c = true /\ signer_recovered c = true /\
   e_gas c = true /\ e_seq c = true /\ e_sig c = true /\
   route_tx c NoExt = RouteNonEVM /\ route_tx c OtherExt <> RouteEVM /\
   (route_tx c EvmExt = RouteEVM \/ route_tx c EvmExt = RouteReject).
@@ -287,7 +288,7 @@ Lemma route_eqb_eq a b : route_eqb a b = true <-> a = b.
 Proof. destruct a, b; simpl; split; intro H; try discriminate; auto. Qed.
 
 Definition cfg_okb (c : cfg) : bool :=
-  sig_on c && negb (sig_accepts_eth c) && wasm_signer c && e_gas c && e_seq c && e_sig c &&
+  sig_on c && negb (sig_accepts_eth c) && wasm_signer c && signer_recovered c && e_gas c && e_seq c && e_sig c &&
   route_eqb (route_tx c NoExt) RouteNonEVM && negb (route_eqb (route_tx c OtherExt) RouteEVM) &&
   (route_eqb (route_tx c EvmExt) RouteEVM || route_eqb (route_tx c EvmExt) RouteReject).
 
@@ -311,7 +312,7 @@ Lemma direct_eth_In ms ls l : direct_eth ms = Some ls -> In l ls -> In (Leaf l) 
 Proof.
   revert ls. induction ms as [|m ms IH]; intros ls H Hin; simpl in H.
   - inversion H. subst. contradiction.
-  - destruct m as [[a n g p v|?|? ? ?]| | | |]; try discriminate.
+  - destruct m as [[a n g p v|?|? ? ?|? ? ? ? ? ?]| | | |]; try discriminate.
     destruct (direct_eth ms) as [r|] eqn:E; [|discriminate]. inversion H. subst.
     destruct Hin as [<-|Hin]; [now left|right; eapply IH; eauto].
 Qed.
@@ -322,10 +323,10 @@ Theorem deliver_eth_only_behind_evm_ante c w s x :
   grants_ok w s' /\
   exists added, ran s' = added ++ ran s /\ forall l, In l added -> admitted_in s x l.
 Proof.
-  intros (Hsigon & Hsig & Hwasm & Hgas & Hseq & _ & Hno & Hother & Hevm) Hw Hwf Hg.
+  intros (Hsigon & Hsig & Hwasm & Hrecov & Hgas & Hseq & _ & Hno & Hother & Hevm) Hw Hwf Hg.
   destruct (route_tx c (t_ext x)) eqn:Hroute.
   - (* non-EVM route: nothing runs *)
-    destruct (nonevm_deliver_frame w c Hw Hwasm Hsigon Hsig s x Hwf Hg Hroute) as (Hg' & Hran & _).
+    destruct (nonevm_deliver_frame w c Hw Hwasm Hrecov Hsigon Hsig s x Hwf Hg Hroute) as (Hg' & Hran & _).
     split; [exact Hg'|]. exists []. split; [exact Hran|]. intros l [].
   - (* EVM route *)
     assert (Hext : t_ext x = EvmExt).
@@ -406,7 +407,7 @@ Lemma run_direct_eth_seq c w ms ls (base : addr -> nat) :
 Proof.
   revert ls. induction ms as [|m ms IH]; intros ls Hd Hn s s' Hs Hrun b.
   - unfold run_msgs in Hrun. simpl in Hrun. inversion Hrun. subst. apply Hs.
-  - simpl in Hd. destruct m as [[a n g p v|?|? ? ?]| | | |]; try discriminate.
+  - simpl in Hd. destruct m as [[a n g p v|?|? ? ?|? ? ? ? ? ?]| | | |]; try discriminate.
     destruct (direct_eth ms) as [r|] eqn:E; [|discriminate]. inversion Hd. subst. clear Hd.
     rewrite run_msgs_cons, run_msg_leaf in Hrun.
     destruct (leaf_run w s (EthTx a n g p v)) as [s1|] eqn:Hl; [|discriminate].
@@ -430,9 +431,9 @@ Theorem nonce_never_rewound c w s x :
   forall a, w_is_eth w a = true -> (seq_of s a <= seq_of (fst (deliver c w s x)) a)%nat.
 Proof.
   intros Hc Hw Hwf Hg a Ha.
-  pose proof Hc as (Hsigon & Hsig & Hwasm & Hgas & Hseq & _ & Hno & Hother & Hevm).
+  pose proof Hc as (Hsigon & Hsig & Hwasm & Hrecov & Hgas & Hseq & _ & Hno & Hother & Hevm).
   destruct (route_tx c (t_ext x)) eqn:Hroute.
-  - destruct (nonevm_deliver_frame w c Hw Hwasm Hsigon Hsig s x Hwf Hg Hroute) as (_ & _ & He).
+  - destruct (nonevm_deliver_frame w c Hw Hwasm Hrecov Hsigon Hsig s x Hwf Hg Hroute) as (_ & _ & He).
     destruct (He a Ha) as [E _]. simpl in E. rewrite E. lia.
   - unfold deliver. rewrite Hroute. unfold evm_ante.
     match goal with |- context [if ?b then _ else _] => destruct b end; [|simpl; lia].
@@ -464,7 +465,7 @@ Definition leaf_nonneg (l : leaf) : Prop :=
 Lemma cost_of_nonneg a ls : Forall leaf_nonneg ls -> 0 <= cost_of a ls.
 Proof.
   induction 1 as [|l r Hl _ IH]; [unfold cost_of; simpl; lia|].
-  unfold cost_of in *. simpl. destruct l as [b n g p v|?|? ? ?]; simpl in *; try lia.
+  unfold cost_of in *. simpl. destruct l as [b n g p v|?|? ? ?|? ? ? ? ? ?]; simpl in *; try lia.
   destruct (Nat.eqb a b); [|lia]. destruct Hl as (Hg & Hp & Hv). nia.
 Qed.
 
@@ -476,7 +477,7 @@ Proof.
   revert ls. induction ms as [|m ms IH]; intros ls Hd Hnn s s' Hrun b Hb.
   - simpl in Hd. inversion Hd. subst. unfold run_msgs in Hrun. simpl in Hrun. inversion Hrun. subst.
     unfold cost_of. simpl. lia.
-  - simpl in Hd. destruct m as [[a n g p v|?|? ? ?]| | | |]; try discriminate.
+  - simpl in Hd. destruct m as [[a n g p v|?|? ? ?|? ? ? ? ? ?]| | | |]; try discriminate.
     destruct (direct_eth ms) as [r|] eqn:E; [|discriminate]. inversion Hd. subst. clear Hd.
     inversion Hnn as [|? ? Hpv Hnn']. subst. simpl in Hpv. destruct Hpv as (Hg0 & Hp & Hv).
     rewrite run_msgs_cons, run_msg_leaf in Hrun.
@@ -501,7 +502,7 @@ Lemma direct_eth_basic ms ls :
 Proof.
   revert ls. induction ms as [|m ms IH]; intros ls Hd Hb; simpl in Hd.
   - inversion Hd. constructor.
-  - destruct m as [[a n g p v|?|? ? ?]| | | |]; try discriminate.
+  - destruct m as [[a n g p v|?|? ? ?|? ? ? ? ? ?]| | | |]; try discriminate.
     destruct (direct_eth ms) as [r|] eqn:E; [|discriminate]. inversion Hd. subst.
     simpl in Hb. apply andb_true_iff in Hb as [H1 H2].
     constructor; [|apply IH; auto].
@@ -516,9 +517,9 @@ Theorem refund_covered_by_prepayment c w s x :
   forall a, w_is_eth w a = true -> bal_of (fst (deliver c w s x)) a <= bal_of s a.
 Proof.
   intros Hc Hvb Hw Hwf Hg a Ha.
-  pose proof Hc as (Hsigon & Hsig & Hwasm & Hgas & Hseq & _ & Hno & Hother & Hevm).
+  pose proof Hc as (Hsigon & Hsig & Hwasm & Hrecov & Hgas & Hseq & _ & Hno & Hother & Hevm).
   destruct (route_tx c (t_ext x)) eqn:Hroute.
-  - destruct (nonevm_deliver_frame w c Hw Hwasm Hsigon Hsig s x Hwf Hg Hroute) as (_ & _ & He).
+  - destruct (nonevm_deliver_frame w c Hw Hwasm Hrecov Hsigon Hsig s x Hwf Hg Hroute) as (_ & _ & He).
     destruct (He a Ha) as [_ E]. simpl in E. rewrite E. lia.
   - unfold deliver. rewrite Hroute. unfold evm_ante. rewrite Hvb.
     match goal with |- context [if ?b then _ else _] => destruct b eqn:Hcond end; [|simpl; lia].
@@ -553,7 +554,7 @@ Definition violated_by (c : cfg) (h : list tx) (x : tx) (a : addr) : Prop :=
     own MsgEthereumTx in MsgExec{self,[MsgExec{self,[…]}]} (one level deeper than the authz guard looks) *)
 Definition cfg_eth_keys_accepted : cfg :=
   {| nonevm_known := true; evm_route := RouteEVM; other_route := RouteReject; other_decodable := false;
-     g_prevent := true; g_authz := true; g_authz_rec := false; vb_on := true; sig_on := true; sig_accepts_eth := true;
+     g_prevent := true; g_authz := true; g_authz_exec := true; g_authz_rec := false; vb_on := true; sig_on := true; sig_accepts_eth := true; signer_recovered := true;
      fee_on := true; seq_on := true; e_vb := true; e_sig := true; e_acc := true; e_gas := true; e_seq := true;
      wasm_signer := true; wasm_no_eth := true |}.
 
@@ -570,10 +571,28 @@ Proof.
   - unfold violated_by. vm_compute. repeat split; try discriminate; auto.
 Qed.
 
+(** GetSigners reading the unsigned `From` field: anyone can name himself the signer of somebody else's signed
+    Ethereum transaction and replay it two MsgExec levels deep *)
+Definition cfg_signer_from_field : cfg :=
+  {| nonevm_known := true; evm_route := RouteEVM; other_route := RouteReject; other_decodable := false;
+     g_prevent := true; g_authz := true; g_authz_exec := true; g_authz_rec := false; vb_on := true; sig_on := true; sig_accepts_eth := false; signer_recovered := false;
+     fee_on := true; seq_on := true; e_vb := true; e_sig := true; e_acc := true; e_gas := true; e_seq := true;
+     wasm_signer := true; wasm_no_eth := true |}.
+
+Lemma refuted_if_signers_read_from_field :
+  exists h x a, Forall (tx_wf harness_world) (h ++ [x]) /\ violated_by cfg_signer_from_field h x a.
+Proof.
+  exists [evm_tx [eth 20 0 21000]; evm_tx [eth 20 1 21000]; evm_tx [eth 20 2 21000]],
+         (cos_tx 1 [Exec 1 [Exec 1 [Leaf (EthTxAs 1 20 0 50000 1 1)]]]), 20%nat.
+  split.
+  - repeat constructor.
+  - unfold violated_by. vm_compute. repeat split; try discriminate; auto.
+Qed.
+
 (** the wasm handler's signer check dropped: a contract could dispatch MsgExec{grantee = E,[MsgEthereumTx of E]} *)
 Definition cfg_wasm_signer_unchecked : cfg :=
   {| nonevm_known := true; evm_route := RouteEVM; other_route := RouteReject; other_decodable := false;
-     g_prevent := true; g_authz := true; g_authz_rec := false; vb_on := true; sig_on := true; sig_accepts_eth := false;
+     g_prevent := true; g_authz := true; g_authz_exec := true; g_authz_rec := false; vb_on := true; sig_on := true; sig_accepts_eth := false; signer_recovered := true;
      fee_on := true; seq_on := true; e_vb := true; e_sig := true; e_acc := true; e_gas := true; e_seq := true;
      wasm_signer := false; wasm_no_eth := true |}.
 
@@ -590,7 +609,7 @@ Qed.
 (** the nonce decorator dropped from the EVM chain: the same signed message executes twice *)
 Definition cfg_no_nonce_check : cfg :=
   {| nonevm_known := true; evm_route := RouteEVM; other_route := RouteReject; other_decodable := false;
-     g_prevent := true; g_authz := true; g_authz_rec := false; vb_on := true; sig_on := true; sig_accepts_eth := false;
+     g_prevent := true; g_authz := true; g_authz_exec := true; g_authz_rec := false; vb_on := true; sig_on := true; sig_accepts_eth := false; signer_recovered := true;
      fee_on := true; seq_on := true; e_vb := true; e_sig := true; e_acc := true; e_gas := true; e_seq := false;
      wasm_signer := true; wasm_no_eth := true |}.
 
